@@ -87,6 +87,20 @@ func (fc *funcContext) writePos() {
 	}
 }
 
+// posHint returns the source map hint for the given position as a string that
+// can be embedded into generated code.
+func (fc *funcContext) posHint(pos token.Pos) string {
+	h := sourcemapx.Hint{}
+	if err := h.Pack(pos); err != nil {
+		panic(bailout(fmt.Errorf("failed to pack source map position: %w", err)))
+	}
+	buf := &bytes.Buffer{}
+	if _, err := h.WriteTo(buf); err != nil {
+		panic(bailout(fmt.Errorf("failed to write source map hint: %w", err)))
+	}
+	return buf.String()
+}
+
 // Indented increases generated code indentation level by 1 for the code emitted
 // from the callback f.
 func (fc *funcContext) Indented(f func()) {
